@@ -17,7 +17,12 @@ THEOREMS = ["OdxVerif.Codec." + t for t in ['C01_roundtrip_struct', 'C01_roundtr
                                             'StaticLeaf.decode_eq', 'DynLeaf.good', 'DynLeaf.encode_eq', 'DynLeaf.decode_eq', 'Good.padTo', 'Good.touch', 'Good.list',
                                             'Good.advancing',
                                             'C01_roundtrip_fields_eop', 'fitems_eop_roundtrip_msg', 'EopLeaf.encode_eq', 'EopLeaf.decode_eq', 'decodeToEnd_eq',
-                                            'GItems.decPre_intro']]
+                                            'GItems.decPre_intro',
+                                                 'encodeParam_obj', 'decodeParam_obj', 'encodeParam_const_obj', 'decodeParam_const_obj',
+                                                 'Obj.raw_decodes', 'Obj.canon_decodes']] + \
+           ["OdxVerif.Text." + t for t in ['utf8_decode_encode', 'utf8_encode_decode', 'f32to64_f64to32', 'f64to32_f32to64',
+                                           'utf16_decode_encode', 'utf16_encode_decode']] + \
+           ["OdxVerif.Bits." + t for t in ['bcd_roundtrip', 'bcdEnc_digit']]
 RULE = ("well-formed descriptions (envelope wf of DESIGN §6/C01, by construction in harness/odxgen/gen.py) x canonical values "
         "(odxgen/values.py): corpus of past failures; every BYTE-SIZE structure size x offset; every (integer type, encoding, byte order, "
         "bit length, bit position) standard-length DOP with boundary values; floats/strings/byte fields x encodings x byte orders; random "
